@@ -1,6 +1,7 @@
 import TucanProofs.Lemmas.Pipeline
 import TucanProofs.Examples
 import TucanProofs.Lemmas.Files
+import TucanProofs.Lemmas.FilesIdx
 /-!
 # C06 — TUCAN depends only on elements, isotopes, radicals and connectivity
 
@@ -57,6 +58,31 @@ theorem C06_v2000_file_readsAs (m : Mol) (hm : m.Ok) (text : Str) (lines : List 
     (f : IsV2000File lines atoms bonds bl) (hver : ∀ l3, lines[3]? = some l3 → EndsInWord l3 (cs "V2000"))
     (h : V2States m atoms bonds bl) : ReadsAs text m (v2Coords atoms) :=
   v2000_text_reads_mol m hm text lines atoms bonds bl ht f hver h
+
+/-- **The numeric atom indices used in the file.**  A V3000 file whose atom lines carry ANY pairwise distinct
+indices, in any order, with bond lines referring to atoms by these indices, is read as a graph *of* the molecule
+it states (`IsGraphOf`: node `i` is the `i`-th listed atom, adjacency is the molecule's) — the indices are
+gone from the graph on. -/
+theorem C06_v3000_file_any_indices (m : Mol) (hm : m.Ok) (idx : List Int) (coords : List (Str × Str × Str))
+    (text : Str) (lines : List Str) (atoms : List AtomEntry) (bonds : List BondEntry)
+    (ht : IsTextOf text lines) (f : IsV3000File lines atoms bonds)
+    (hver : ∀ l3, lines[3]? = some l3 → EndsInWord l3 (cs "V3000"))
+    (h : V3StatesIdx m idx coords atoms bonds) :
+    ∃ g, graphFromMolfileText text = .ok g ∧ IsGraphOf g m coords :=
+  v3000_text_reads_graph_of m hm idx coords text lines atoms bonds ht f hver h
+
+/-- every text that `ReadsAs` a molecule (V3000 with indices `1…n`, or V2000) is read as a graph of it -/
+theorem C06_readsAs_graph_of (m : Mol) (hm : m.Ok) (c : List (Str × Str × Str)) (hc : c.length = m.atoms.length)
+    (text : Str) (r : ReadsAs text m c) : ∃ g, graphFromMolfileText text = .ok g ∧ IsGraphOf g m c :=
+  readsAs_graph_of m hm c hc text r
+
+/-- **… and graphs of molecules of the same identity get the same string**, whichever files (with whichever
+indices, charges, bond types, coordinates, headers, line endings) they were read from. -/
+theorem C06_graphs_of_same_identity (O : CanonOracle) (m m' : Mol) (hm : m.Ok) (same : SameIdentity m m')
+    (c c' : List (Str × Str × Str)) (hc : c.length = m.atoms.length) (hc' : c'.length = m'.atoms.length)
+    (g g' : Graph) (hg : IsGraphOf g m c) (hg' : IsGraphOf g' m' c') (s s' : Str)
+    (hs : tucanOf O.order g = .ok s) (hs' : tucanOf O.order g' = .ok s') : s = s' :=
+  isGraphOf_same_string O m m' hm same c c' hc hc' g g' hg hg' s s' hs hs'
 
 /-- the line-ending style is invisible to the readers -/
 theorem C06_line_endings (eol : Str) (he : IsEol eol) (lines : List Str) (hnb : ∀ l ∈ lines, WR.NoBreak l) :
